@@ -89,6 +89,11 @@ def run(res, tier, seed, shard, nshards):
         for latency in ("zero", "half"):
             for traffic in ("none", "periodic"):
                 jobs.append(("responsive-slow", interval, to, 0.0, latency, traffic, ("on_pong", round((to + interval) / 2 - to / 4, 6))))
+    # a silent peer and an open callback that is still running when the first ping leaves (it returns at most half a timeout later)
+    for interval, to in ((1.0, 0.6), (2.0, 0.5), (3.0, 1.0), (1.0, 0.4), (0.6, 0.25)):
+        for k in (1, 2):
+            for frac in (0.1, 0.5):
+                jobs.append(("silent-slow-open", interval, to, round(k * interval + frac * to, 6)))
     # refused settings
     for pi_, pt_ in [(1, 0), (1, -1), (-1, 1), (-1, None), (1, 1), (1, 2), (0.5, 0.5), (2, 2.0), (0.1, 100), (5, -0.001), (-0.001, None)]:
         jobs.append(("refused", pi_, pt_))
@@ -129,6 +134,10 @@ def run(res, tier, seed, shard, nshards):
             with H.ambient((ji, "C16"), res, dims=("app",)):
                 for tie in ("loop-first", "ping-first"):
                     (silent_case if job[0] == "silent" else responsive_case)(res, W, rng, *job[1:], tie=tie)
+            continue
+        if job[0] == "silent-slow-open":
+            for tie in ("loop-first", "ping-first"):
+                silent_case(res, W, rng, job[1], job[2], 0.0, 0, "none", tie=tie, slow_open=job[3])
             continue
         if job[0] == "silent-dt":
             for tie in ("loop-first", "ping-first"):
@@ -240,14 +249,19 @@ def check_pings(res, bad, srv, interval, payload, end):
         bad("no-pings", f"no ping within {end - srv.opened_at}s, interval {interval}")
 
 
-def silent_case(res, W, rng, interval, to, phase, silent_from, traffic, tie, default_timeout=None):
+def silent_case(res, W, rng, interval, to, phase, silent_from, traffic, tie, default_timeout=None, slow_open=None):
     horizon = 40 * interval + 100
     until = (silent_from + 2) * interval + 6 * to + 10
     script = traffic_script(traffic, phase, to, interval, until)
     plan = [dict(outcome="ok", script=script, pong=lambda k, t: (0.0 if k < silent_from else None))]
-    run, out, failure, S = execute(plan, dict(ping_interval=interval, ping_timeout=to, ping_payload="ka"), tie, horizon, default_timeout=default_timeout)
+    hooks = None
+    if slow_open:
+        # the open callback takes a while (it ends after the first ping has left, but well before that ping's answer is overdue)
+        hooks = {"on_open": lambda run_, app_, *a: sched.CURRENT.sleep(slow_open)}
+        res.count("silent_peer_runs_with_slow_open_callback")
+    run, out, failure, S = execute(plan, dict(ping_interval=interval, ping_timeout=to, ping_payload="ka"), tie, horizon, default_timeout=default_timeout, hooks=hooks)
     case = {"kind": "silent", "interval": interval, "timeout": to, "phase": phase, "silent_from_ping": silent_from, "traffic": traffic, "tie": tie,
-            "default_socket_timeout": default_timeout}
+            "default_socket_timeout": default_timeout, "open_callback_takes": slow_open}
     if default_timeout is not None:
         res.count("silent_peer_runs_with_default_socket_timeout")
     cls = "interval<2*timeout" if interval < 2 * to - 1e-9 else "interval>=2*timeout"
@@ -403,7 +417,8 @@ def settings_case(res, W, kind, pi_, pt_):
 
 
 def payload_case(res, W, rng, interval, to):
-    for payload in ("", "hello", "ünï€", "x" * 125) + (("key-source-hiccup",) if not to else ()):
+    # str and every bytes-like kind of payload
+    for payload in ("", "hello", "ünï€", "x" * 125, b"raw\x00\xff", bytearray(b"mutable"), memoryview(b"view-of-bytes")) + (("key-source-hiccup",) if not to else ()):
         dur = 6 * interval
         plan = [dict(outcome="ok", script=[(dur, "close", b"")], pong=0.0)]
         kw = dict(ping_interval=interval, ping_payload=payload)
@@ -438,8 +453,11 @@ def payload_case(res, W, rng, interval, to):
             else:
                 check_pings(res, bad, type("S", (), {"pings": pings, "opened_at": interval})(), interval, payload.encode("utf-8"), dur)
         else:
-            check_pings(res, bad, run.servers[0], interval, payload.encode("utf-8"), dur)
+            check_pings(res, bad, run.servers[0], interval, payload.encode("utf-8") if isinstance(payload, str) else bytes(payload), dur)
+            if not run.servers[0].pings:
+                bad("no-pings", f"no ping reached the peer in {dur}s")
         res.count("payload_runs")
+        res.count("payload_kind:" + type(payload).__name__)
 
 
 def stop_case(res, W, rng, interval, to):
